@@ -30,6 +30,8 @@ impl<'i> super::ExecutableInstruction<'i> for Xor<'i> {
         log_instruction!(xor, exec_ctx, trace_ctx);
 
         exec_ctx.flush_subgraph_completeness();
+        // :error: as it is outside of this xor (e.g. the failure caught by an enclosing xor)
+        let error_descriptor = exec_ctx.error_descriptor.clone();
         match self.0.execute(exec_ctx, trace_ctx) {
             Err(e) if e.is_catchable() => {
                 print_xor_log(&e);
@@ -47,6 +49,9 @@ impl<'i> super::ExecutableInstruction<'i> for Xor<'i> {
                 exec_ctx.error_descriptor.clear_error_object_if_needed();
 
                 if right_subgraph_result.is_ok() {
+                    // the caught failure ends here: :error: is again what it was before this xor, that is
+                    // no-error or, in the right branch of an enclosing xor, the failure that one caught
+                    exec_ctx.error_descriptor = error_descriptor;
                     exec_ctx.error_descriptor.enable_error_setting();
                 }
 
